@@ -99,6 +99,13 @@ def run(ctx):
             # oracle, straight from the property text: a selected DATA name that a completed run did not return was not produced
             emit_names = {e for nn in g["nodes"] for e in gen.iface(nn)[1] if e.startswith("sig") or e == "done"}
             if obs["status"] == "completed":
+                # ... and every selected data name whose producer ran IS returned (whatever its value: None, 0, '' included)
+                ran = {c[0] for c in obs["log"]}
+                for nn in g["nodes"]:
+                    if nn["kind"] == "func" and nn["name"] in ran:
+                        for k in nn["outputs"]:
+                            if k in eff and k not in obs["values"]:
+                                msgs.append(f"selected output {k!r} was produced by {nn['name']!r} (which ran) but is absent from the returned values")
                 not_produced = [k for k in eff if k not in obs["values"] and k not in emit_names]
                 if not_produced and rc["on_missing"] == "error":
                     msgs.append(f"on_missing='error': selected output(s) {not_produced} were not produced, yet the run returned quietly")
